@@ -337,6 +337,62 @@ def run(repo='/repo', tier='quick'):
             res.check(not resets, 'C07.e', 'limit-counter:%s:loop-carried' % v['name'], '%s is initialised before the token loop and only incremented inside it' % v['name'],
                       'the counter %s that is compared with the layer limit is (re)initialised inside the token loop: it never exceeds the limit and every coding token gets its own decompressor' % v['name'], (resets[0].get('loc') if resets else cnd[0]['loc']))
     res.floor('C07.e', 'limit counters in the token loop', ncnt, 1)
+    # ---------------- C07.h the time budget is charged with the elapsed time, not more
+    res.rule('C07.h', 'time accounting: on every successful path of htp_timer_track the budget grows by 1000000 * (after.sec - before.sec) + (after.usec - before.usec) as a linear form (on the same-second arm the first term vanishes by the arm\'s guard); an over-charge switches a healthy decompressor to pass-through')
+    tf = db.get('htp_timer_track')
+    from .c01j import lin as _lin, sub as _sub
+    npth, badt = 0, None
+    for atoms, events, end, seq in P.enum_paths_seq(tf, (tf.entry, -1)):
+        if end[0] != 'return' or lit_name(P.ret_value(end[3])) != 'HTP_OK':
+            continue
+        npth += 1
+        facts = [a for a, bb in atoms]
+        added = {}
+        for x in seq:
+            if x[0] != 'stmt':
+                continue
+            for w in nodes(x[3], lambda y: y.get('k') == 'assign' and y['op'] == '+=' and P.K(y['l']).startswith('*')):
+                lf = _lin(tf, w['r'])
+                if lf is None:
+                    added = None
+                    break
+                for t, c in lf.items():
+                    added[t] = added.get(t, 0) + c
+            if added is None:
+                break
+        sec = [t for t in (added or {}) if t.endswith('tv_sec')]
+        same_second = any(a[0].endswith('tv_sec') and a[2].endswith('tv_sec') and a[1] == '==' for a in facts)
+        want_usec = {t: c for t, c in (added or {}).items() if t.endswith('tv_usec')}
+        aft = [t for t in want_usec if 'after' in t]
+        bef = [t for t in want_usec if 'before' in t]
+        ok = added is not None and len(aft) == 1 and len(bef) == 1 and want_usec[aft[0]] == 1 and want_usec[bef[0]] == -1 and added.get('', 0) == 0
+        if ok and not same_second:
+            sa_ = [t for t in sec if 'after' in t]
+            sb_ = [t for t in sec if 'before' in t]
+            ok = len(sa_) == 1 and len(sb_) == 1 and added[sa_[0]] == 1000000 and added[sb_[0]] == -1000000
+        elif ok:
+            ok = not sec
+        if ok:
+            ok = set(added) <= set(aft + bef + sec + [''])
+        if not ok:
+            badt = (added, facts)
+    res.check(badt is None and npth >= 2, 'C07.h', 'htp_timer_track:elapsed-time', 'both successful arms add exactly the elapsed microseconds (%d paths)' % npth,
+              'htp_timer_track adds %s under %s, which is not the elapsed time 1000000 * dsec + dusec: time is over- or under-charged (an over-charge exceeds the time limit and the rest of the body is passed through compressed)' % (badt or ('', ''))[:2], tf.loc)
+    # ---------------- C07.i a body state that handles closure of the stream looks at it before it can ask for more data
+    res.rule('C07.i', 'close before wait: in every response body state that tests out_status == CLOSED (where the decompressor gets its end-of-data call) that test dominates every `return HTP_DATA`')
+    nci = 0
+    for name in sorted(P.state_functions(db, 'out')):
+        sf = db.get(name)
+        tests = [b for b in sf.blocks if sf.cond_of(b) and (P.canon(sf.cond_of(b)[0]) or ('', '', ''))[0] == 'connp->out_status' and P.canon(sf.cond_of(b)[0])[2] == 'HTP_STREAM_CLOSED']
+        rets = [(b, i, st) for b, i, st in sf.returns() if lit_name(P.ret_value(st)) == 'HTP_DATA']
+        if not tests or not rets:
+            continue
+        nci += 1
+        dom = C.dominators(sf)
+        early = [st for b, i, st in rets if not any(t in dom[b] for t in tests)]
+        res.check(not early, 'C07.i', name + ':close-test-first', 'the CLOSED test dominates all %d `return HTP_DATA`' % len(rets),
+                  '%s can return HTP_DATA (wait for more bytes) before it has looked at out_status == CLOSED: on a close in the middle of the body the decompressor never gets its end-of-data call, buffered output is lost and the response never completes' % name, (early[0]['loc'] if early else sf.loc))
+    res.floor('C07.i', 'response body states that handle closure', nci, 2)
     res.assumptions += ['zlib and the LZMA SDK write at most avail_out bytes into the output buffer', 'fidelity (decompressed bytes == payload) is not decided']
     return res
 
